@@ -167,16 +167,26 @@ func (e *TCGPCREvent2) Unmarshal(r io.Reader) error {
 	if err := littleRead(r, "PCRIndex", &e.PCRIndex); err != nil {
 		return err
 	}
+	// Only the first field may meet the end of the log: the input ending anywhere later in an event
+	// is a truncation, not the end of the event list.
 	if err := littleRead(r, "EventType", &e.EventType); err != nil {
-		return err
+		return truncated(err)
 	}
 	if err := littleRead(r, "Digests", &e.Digests); err != nil {
-		return err
+		return truncated(err)
 	}
 	if err := littleRead(r, "EventData", &e.EventData); err != nil {
-		return err
+		return truncated(err)
 	}
 	return nil
+}
+
+// truncated makes sure an error inside an event is not mistaken for a clean end of input.
+func truncated(err error) error {
+	if errors.Is(err, io.EOF) {
+		return fmt.Errorf("%v: %w", err, io.ErrUnexpectedEOF)
+	}
+	return err
 }
 
 // Marshal writes a TCGPCREvent2 to the given writer.
